@@ -82,3 +82,18 @@ var writeOnce = map[FieldID]string{
 	{"adt", "Pool", "typeIsPtr"}:      "once",
 	{"adt", "Once", "comp"}:           "once",
 }
+
+// W3 exceptions (one construct each, keyed "<writer>/<cond>").
+var w3NotRequired = map[string]string{
+	"pubsub.(*Queue).popFront/nempty": "removing an item cannot make the predicate of nempty's waiters (queue non-empty) true",
+}
+
+// A notification under this guard is accepted for the keyed construct.
+var w3GuardAllowed = map[string]string{
+	"pubsub.(*Queue).doAdd/nempty": "q.tracker.len() == 1",
+}
+
+// Signal (instead of Broadcast) accepted for the keyed construct.
+var w6SignalAllowed = map[string]string{
+	"pubsub.(*Queue).doAdd/nempty": "empty→non-empty transition signal: one consumer is woken per transition, and every departing waiter re-broadcasts nempty through its context watcher (W2b), so later items reach the remaining consumers",
+}
